@@ -70,6 +70,7 @@ fn main() {
         "C20" => c20::run(&mut run),
         "C12" => c12::run(&mut run),
         "C05" => c05::run(&mut run),
+        "C05CHILD" => { c05::child(&opts.out); return; }
         "C04" => c04::run(&mut run),
         "C06" => c06::run(&mut run),
         "C10" => c10::run(&mut run),
